@@ -141,6 +141,7 @@ type world struct {
 	htltCreated, htltClaimed, oracleRandom, seedProviders, timePromoBindings int
 	discardedAfterExec, historyShortened, foreignProviders                   int
 	autoPaused, foreignPriced, priceCalls, hugePrices, farRandom             int
+	rateTemplates                                                            int
 }
 
 // shapeClasses names the rarer shapes this history contained (accepted transactions only).
@@ -163,6 +164,7 @@ func (w *world) shapeClasses() []string {
 	add(w.foreignPriced > 0, "binding-priced-through-exchange-rate")
 	add(w.priceCalls > 0, "oracle-price-call-ok")
 	add(w.hugePrices > 0, "binding-price>=2^63")
+	add(w.rateTemplates > 0, "exchange-rate-template")
 	add(w.farRandom > 0, "random-request-due-beyond-2^31")
 	return cl
 }
@@ -180,6 +182,9 @@ type hist struct {
 	// maxIdle > 0: a block is sometimes followed by a stretch of up to maxIdle empty blocks, so that histories reach
 	// heights far from where their objects were created (HTLT expiry is >= 50 blocks away)
 	maxIdle int
+	// exchange-rate template (see nextBlock): step being emitted (0 = not running), blocks drawn so far
+	tmpl, nblocks int
+	noTemplate    bool
 }
 
 func (h *hist) addr(i int) string { return h.n.Users[i].Addr.String() }
@@ -216,6 +221,22 @@ func pick[T any](t *rapid.T, label string, xs []T) T {
 
 // nextBlock draws the next block of the history.
 func (h *hist) nextBlock(t *rapid.T, maxTxs int) blockOp {
+	// One history in three starts with the exchange-rate template (a service with a provider, the feed "usdt-stake"
+	// started and answered, a binding priced in usdt, a call of the oracle-price system service): afterwards prices
+	// quoted in usdt can be converted, and contexts mix providers priced in different coins.
+	if h.nblocks == 0 && !h.noTemplate && rapid.IntRange(0, 2).Draw(t, "ratetemplate") == 0 {
+		h.tmpl = 1
+	}
+	h.nblocks++
+	if h.tmpl > 0 {
+		if op, ok := h.clockTemplate(h.tmpl - 1); ok {
+			h.tmpl++
+			op.Dt = int64(time.Second) * int64(rapid.IntRange(1, 5).Draw(t, "tmpldt"))
+			return op
+		}
+		h.tmpl = 0
+		h.w.rateTemplates++
+	}
 	op := blockOp{}
 	switch rapid.IntRange(0, 9).Draw(t, "dtk") {
 	case 0:
